@@ -510,7 +510,34 @@ def vary_content_types(rng, case):
                 r['boundaries'] = [b + len(pad) if b >= eol else b for b in r['boundaries']]
                 r['head_len'] += len(pad)
                 r['classes'] = dict(r['classes'], long_header=True, header_at_limit=target)
+        if rng.random() < 0.06 and r['classes']['framing'] != 'interim':
+            # a status line whose reason phrase is empty ("HTTP/1.1 200 " is valid) or missing altogether
+            eol = r['wire'].find(b'\n')
+            first = r['wire'][:eol]
+            m = re.match(br'^(HTTP/1\.[01] \d{3})( [^\r]*)?(\r?)$', first)
+            if m:
+                new = m.group(1) + rng.choice([b' ', b'', b' ']) + m.group(3)
+                delta = len(new) - len(first)
+                r['wire'] = new + r['wire'][eol:]
+                r['boundaries'] = [b + delta for b in r['boundaries']]
+                r['head_len'] += delta
+                r['classes'] = dict(r['classes'], empty_reason=True)
         r['boundaries'] = [b for b in r['boundaries'] if 0 < b < len(r['wire'])]
+    if rng.random() < 0.08 and case['seq'][-1]['classes']['framing'] not in ('overrun', 'interim') and not case.get('whole_only') and \
+            not case.get('stall_last_at'):
+        # a response without a Content-Type field whose body looks like a header block itself (a stored e-mail, a MIME
+        # multipart, a quoted HTTP trace): status and type are those of the response header, not of anything in the body
+        body = rng.choice([
+            b'MIME-Version: 1.0\r\nContent-Type: multipart/mixed; boundary=x\r\n\r\n--x\r\nContent-Type: image/x-nonsense\r\n\r\ndata\r\n--x--\r\n',
+            b'Content-Type: text/x-in-the-body\r\n\r\nrest of the body\r\n\r\n',
+            b'HTTP/1.1 500 Quoted\r\nContent-Type: application/x-trace\r\n\r\nquoted exchange\n\n',
+            b'From: a@b\nContent-Type: message/rfc822\n\nhello\n\n'])
+        head = b'HTTP/1.1 ' + rng.choice([b'200 OK', b'404 Not Found', b'203 Partial']) + b'\r\nServer: sim\r\nContent-Length: ' + \
+            str(len(body)).encode() + b'\r\n\r\n'
+        case['seq'][-1] = {'wire': head + body, 'then': 'keep', 'method': 'GET', 'head_len': len(head), 'surplus': 0, 'interim_len': 0,
+                           'classes': {'framing': 'length', 'style': 'canonical', 'coding': 'identity', 'body': 'header-like', 'conn_close_linger': False,
+                                       'chunk_style': None, 'header_like_body': True},
+                           'expect': {'status': 200, 'body': body}, 'boundaries': [len(head), len(head) + 10]}
 
 
 def note_nontrivial(part, obs, mode):
